@@ -526,8 +526,10 @@ fn gen_maps(rng: &mut Rng, ptr: u32, around: &[u64]) -> Vec<u8> {
     if rng.chance(1, 6) {
         regions.push((0x5000, 0x5000)); // empty
     }
-    for (a, b) in regions {
-        s.push_str(&format!("{a:x}-{b:x} {} {:08x} 08:01 {} {}\n", rng.pick(&perms), rng.below(0x10000), rng.below(100000), rng.pick(&paths)));
+    for (i, (a, b)) in regions.into_iter().enumerate() {
+        // the first region (the one holding the first hot address) is mostly a guard-page candidate
+        let perm = if i == 0 && rng.chance(2, 3) { "---p" } else { *rng.pick(&perms) };
+        s.push_str(&format!("{a:x}-{b:x} {} {:08x} 08:01 {} {}\n", perm, rng.below(0x10000), rng.below(100000), rng.pick(&paths)));
     }
     if rng.chance(1, 4) {
         s.push_str("garbage line\n-\n12-\n-34 r-xp\nzz-yy r-xp 0 0:0 0\n");
